@@ -143,8 +143,76 @@ fn case<R: KhRing>(ctx: &mut Ctx, rng: &mut Rng) where for<'x> &'x R: EucRingOps
     if ctx.want_sample(&class) { ctx.sample(&class, json!({"config": conf, "pd": pd.x, "homology": tot})) }
 }
 
+// ---- second opinion: the library's first-generation engine (explicit cube, cargo feature `old`), run in a
+// separate process (`vh-old`, built by the driver from the same tree). It shares alg.rs and the homology
+// layer with the engine under test but none of the tangle / cobordism code, and it reaches 11 crossings.
+
+struct OldEngine { child: std::process::Child, stdin: std::process::ChildStdin, stdout: std::io::BufReader<std::process::ChildStdout> }
+
+fn old_engine() -> Option<&'static std::sync::Mutex<OldEngine>> {
+    static E: OnceLock<Option<std::sync::Mutex<OldEngine>>> = OnceLock::new();
+    E.get_or_init(|| {
+        let bin = std::env::var("VERIF_OLD").ok()?;
+        let mut child = std::process::Command::new(bin).stdin(std::process::Stdio::piped()).stdout(std::process::Stdio::piped()).stderr(std::process::Stdio::null()).spawn().ok()?;
+        let stdin = child.stdin.take()?;
+        let stdout = std::io::BufReader::new(child.stdout.take()?);
+        Some(std::sync::Mutex::new(OldEngine { child, stdin, stdout }))
+    }).as_ref()
+}
+
+fn ask_old(pd: &PD, h: i64, t: i64, reduced: bool, ring: &str) -> Result<Total, String> {
+    use std::io::{BufRead, Write};
+    let e = old_engine().ok_or("old engine unavailable")?;
+    let mut g = e.lock().map_err(|_| "poisoned")?;
+    let req = json!({"pd": pd.x, "neg": pd.neg, "h": h, "t": t, "reduced": reduced, "ring": ring});
+    writeln!(g.stdin, "{}", req).map_err(|e| e.to_string())?;
+    g.stdin.flush().map_err(|e| e.to_string())?;
+    let mut line = String::new();
+    g.stdout.read_line(&mut line).map_err(|e| e.to_string())?;
+    let _ = &g.child;
+    let v: serde_json::Value = serde_json::from_str(&line).map_err(|e| format!("{e}: {line}"))?;
+    if let Some(err) = v.get("error") { return Err(format!("old engine: {err}")) }
+    let mut out = Total::new();
+    for (k, val) in v["total"].as_object().ok_or("no total")? {
+        let r = val[0].as_u64().unwrap_or(0) as usize;
+        let ts: Vec<String> = val[1].as_array().map(|a| a.iter().map(|x| x.as_str().unwrap_or("").to_string()).collect()).unwrap_or_default();
+        out.insert(k.parse().map_err(|_| "bad degree")?, (r, ts));
+    }
+    Ok(out)
+}
+
+fn old_case<R: KhRing>(ctx: &mut Ctx, rng: &mut Rng, ring: &str) where for<'x> &'x R: EucRingOps<R> {
+    let maxc = ctx.by_tier(10, 11);
+    let (name, mut pd) = pick_table(rng, 3, maxc);
+    let mut origin = format!("table {name}");
+    if rng.chance(1, 4) { let k = rng.below(pd.n()); pd = pd.switch_crossing(k); origin += &format!(" switch{k}") }
+    if rng.chance(1, 4) { pd = pd.mirror_flags(); origin += " mirror" }
+    if pd.validate().is_err() || pd.n_free() > 0 { ctx.inconclusive("generator_invalid_diagram"); return }
+    let (h, t) = if rng.chance(1, 2) { (0, 0) } else { *rng.choose(&HT) };
+    let reduced = t == 0 && rng.chance(1, 3);
+    let exp = match ask_old(&pd, h, t, reduced, ring) { Ok(x) => x, Err(e) => { ctx.inconclusive("old_engine_unavailable_or_failed"); ctx.note(e); return } };
+    let l = to_link(&pd);
+    let conf = json!({"ring": ring, "origin": origin, "h": h, "t": t, "reduced": reduced});
+    match guarded(move || kh_total::<R>(&l, h, t, reduced, &BuildCfg::default_cfg())) {
+        Ok(got) => {
+            if got != exp {
+                ctx.violation(&format!("C01/{}/differs-from-cube-engine", R::rname()), &format!("the tangle-based engine reports {:?}, the library's explicit cube engine (feature `old`) reports {:?}", got, exp), json!({"config": conf, "pd": pd.x, "switched": pd.neg}));
+                return
+            }
+            ctx.ok(&format!("{}/vs-old-engine", R::rname()), true, hash_of(&(&pd.x, &pd.neg, h, t, reduced)));
+            ctx.maxv("max_crossings_vs_old_engine", pd.n() as i64);
+        }
+        Err(e) => { if e.is_overflow() { ctx.inconclusive("overflow_machine_int") } else { ctx.violation(&format!("C01/{}/panic", R::rname()), &format!("panicked: {}", e.brief()), json!({"config": conf, "pd": pd.x})) } }
+    }
+}
+
 pub fn run(ctx: &mut Ctx) {
     let n = ctx.by_tier(3_000u64, 60_000);
+    let m = ctx.by_tier(300u64, 12_000);
+    ctx.random_cases("old/Z", m, |c, r| old_case::<i64>(c, r, "Z"));
+    ctx.random_cases("old/Q", m / 2, |c, r| old_case::<Ratio<i64>>(c, r, "Q"));
+    ctx.random_cases("old/F2", m / 2, |c, r| old_case::<FF<2>>(c, r, "F2"));
+    ctx.random_cases("old/F3", m / 2, |c, r| old_case::<FF<3>>(c, r, "F3"));
     ctx.random_cases("i64", n * 2, |c, r| case::<i64>(c, r));
     ctx.random_cases("BigInt", n, |c, r| case::<BigInt>(c, r));
     ctx.random_cases("Ratio<i64>", n, |c, r| case::<Ratio<i64>>(c, r));
